@@ -12319,7 +12319,7 @@ Tree_depth(Tree *self, PyObject *args)
         goto out;
     }
     err = tsk_tree_get_depth(self->tree, node, &depth);
-    if (ret != 0) {
+    if (err != 0) {
         handle_library_error(err);
         goto out;
     }
